@@ -18,6 +18,12 @@ NUM = re.compile(r"^[+-]?(\d+(\.\d*)?|\.\d+)([eE][+-]?\d+)?$")
 
 def classify_token(tok):
     if NUM.match(tok) and tok.isascii():
+        digits = re.sub(r"[eE].*$", "", tok).replace(".", "").lstrip("+-0")
+        if len(digits) > 15:     # more significant digits than a double holds: value as the parser sees it
+            try:
+                return "FUZZY", float(tok)
+            except (ValueError, OverflowError):
+                return "FUZZY", None
         mant = tok
         exp = 0
         m = re.search(r"[eE]([+-]?\d+)$", tok)
@@ -37,7 +43,10 @@ def classify_token(tok):
     if low in ("nan", "inf", "infinity"):
         return "FUZZY", None
     if s and re.match(r"^[+-]?[\d_.eE+-]+$", s) and "_" in s:
-        return "FUZZY", None
+        try:                       # PEP 515 digit separators: numeric on 3.6+, value as parsed
+            return "FUZZY", float(s)
+        except ValueError:
+            return "FUZZY", None
     if s and not s.isascii():
         try:
             return "FUZZY", float(s)
